@@ -467,6 +467,90 @@ fn var_stmt_local_or_global(name: &str, e: Expr) -> Stmt {
     var_stmt(name, e)
 }
 
+
+/// G8: callables of every kind held in an instance field (named like a method of the class, or not) or in a
+/// module attribute, called with method-call syntax, after taking the member as a value, and through a
+/// variable - with 0-2 arguments.  `x.f(a)` is `(x.f)(a)` whatever `f` holds: a function, a lambda, a
+/// closure, a bound method of this or another instance, a built-in function, a bound built-in method, a
+/// constructor or static method taken as a value; things that cannot be called report TypeError.
+fn g8() -> Vec<Case> {
+    use crate::meval::ModuleSource;
+    let mut out = Vec::new();
+    let callables: Vec<(&str, Expr)> = vec![
+        ("named function", var("named")),
+        ("lambda", lambda_expr(&["p"], Expr::VecLit(vec![s("lambda got"), var("p")]))),
+        ("closure", var("counter")),
+        ("bound method of another instance", get(var("other"), "who")),
+        ("bound method of the same instance", get(var("x"), "who")),
+        ("built-in function type", var("type")),
+        ("built-in function print", var("print")),
+        ("bound built-in method of a vec", get(Expr::VecLit(vec![num(1.0), num(2.0)]), "len")),
+        ("bound built-in method of a string", get(s("abc"), "starts_with")),
+        ("static built-in taken as a value", get(var("String"), "from")),
+        ("constructor taken as a value", get(var("K"), "new")),
+        ("static method taken as a value", get(var("K"), "stat")),
+        ("a class", var("K")),
+        ("an instance", var("other")),
+        ("a number", num(5.0)),
+        ("nil", Expr::Nil),
+    ];
+    let decls = || -> Vec<Stmt> {
+        vec![
+            fn_stmt(func("named", &["p"], vec![ret(Expr::VecLit(vec![s("named got"), var("p")]))])),
+            var_stmt("count", num(0.0)),
+            var_stmt("counter", lambda_block(&["p"], vec![expr_stmt(Expr::CompoundAssign("count".into(), BinOp::Add, Box::new(num(1.0)))), ret(Expr::VecLit(vec![s("closure call number"), var("count"), var("p")]))])),
+            class_stmt(
+                "K",
+                None,
+                None,
+                vec![
+                    method(FnKind::Ctor, "new", &["tag"], vec![expr_stmt(set(Expr::SelfRef, "tag", var("tag")))]),
+                    method(FnKind::Method, "who", &["p"], vec![ret(Expr::VecLit(vec![s("who of"), get(Expr::SelfRef, "tag"), var("p")]))]),
+                    method(FnKind::Method, "m", &["p"], vec![ret(Expr::VecLit(vec![s("the class's own m"), get(Expr::SelfRef, "tag"), var("p")]))]),
+                    method(FnKind::Static, "stat", &["p"], vec![ret(Expr::VecLit(vec![s("static got"), var("p")]))]),
+                ],
+            ),
+            var_stmt("x", invoke(var("K"), "new", vec![s("x")])),
+            var_stmt("other", invoke(var("K"), "new", vec![s("other")])),
+        ]
+    };
+    for (what, callable) in &callables {
+        for field in ["m", "fresh"] {
+            let mut prog = decls();
+            prog.push(print_stmt(s(&format!("{} in field {}", what, field))));
+            prog.push(expr_stmt(set(var("x"), field, callable.clone())));
+            for nargs in 0..=2usize {
+                let args: Vec<Expr> = (0..nargs).map(|i| s(&format!("arg{}", i))).collect();
+                prog.push(probe(invoke(var("x"), field, args.clone())));
+                prog.push(probe(call(Expr::Paren(Box::new(get(var("x"), field))), args.clone())));
+                prog.push(var_stmt(&format!("g{}", nargs), get(var("x"), field)));
+                prog.push(probe(call(var(&format!("g{}", nargs)), args.clone())));
+                // the instance and its other members are untouched by the call
+                prog.push(probe(invoke(var("x"), "who", vec![s("after")])));
+            }
+            out.push(Case::new("G8_callables_held_in_fields", prog));
+        }
+        // the same through a module attribute
+        let mut prog = decls();
+        prog.push(st(StmtKind::Import("holder".into(), None)));
+        prog.push(print_stmt(s(&format!("{} in a module attribute", what))));
+        prog.push(expr_stmt(set(var("holder"), "slot", callable.clone())));
+        for nargs in 0..=2usize {
+            let args: Vec<Expr> = (0..nargs).map(|i| s(&format!("arg{}", i))).collect();
+            prog.push(probe(invoke(var("holder"), "slot", args.clone())));
+            prog.push(probe(call(Expr::Paren(Box::new(get(var("holder"), "slot"))), args.clone())));
+            prog.push(probe(invoke(var("holder"), "own", args.clone())));
+        }
+        let mut c = Case::new("G8_callables_held_in_module_attributes", prog);
+        c.modules.insert(
+            "holder".into(),
+            ModuleSource { program: Some(vec![var_stmt("slot", Expr::Nil), fn_stmt(func("own", &["p"], vec![ret(Expr::VecLit(vec![s("the module's own function got"), var("p")]))]))]), compile_error: false },
+        );
+        out.push(c);
+    }
+    out
+}
+
 pub fn cases_for_c04(thorough: bool) -> Vec<Case> {
     g1(thorough).into_iter().chain(g2()).chain(g3()).chain(g5()).chain(g6()).collect()
 }
@@ -474,13 +558,13 @@ pub fn cases_for_c04(thorough: bool) -> Vec<Case> {
 pub fn run(ctx: &Ctx) -> Report {
     let mut report = Report::new();
     let thorough = ctx.thorough();
-    let cases = g1(thorough).into_iter().chain(g2()).chain(g3()).chain(g4()).chain(g5()).chain(g6()).chain(g7());
+    let cases = g1(thorough).into_iter().chain(g2()).chain(g3()).chain(g4()).chain(g5()).chain(g6()).chain(g7()).chain(g8());
     let hooks = Hooks { attribute: &|_c, _m, _o, _mm| None, nontrivial: &|_c, m| m.out.len() >= 4 || matches!(m.outcome, Outcome::Uncaught(_)), fuel: 2_000_000 };
     let stats = mcheck::run(ctx, cases, &hooks);
     mcheck::fill_report(
         &mut report,
         &stats,
-        "G1: every hierarchy of depth 1-3 where each class independently has method m absent / plain / overriding through super.m() / through super.m taken as a value / through super.m() inside a lambda nested in the method, optionally n calling self.m(), and one of four constructor forms; probed with calls, bound values, wrong arity, unknown members, fields shadowing methods, type and derives on instances of the two most derived classes. G2: static methods and Self through class, instance and subclass instance. G3: classes in local scopes, captured variables, rebound superclass names. G4: every non-class value as superclass; deriving built-in error classes. G5: construction, arity, invoke == get-then-call. G6: the receiver of super in instance, static and constructor methods under 5 nestings of the expression and 5 places the class can be declared in, through class, subclass and instances. G7: `derives`, the member every class has from Object, defined anew at each level of a hierarchy of depth 1-3 and found (call, value, super, self call) from that level and every level below. non-trivial = at least four observations.",
+        "G1: every hierarchy of depth 1-3 where each class independently has method m absent / plain / overriding through super.m() / through super.m taken as a value / through super.m() inside a lambda nested in the method, optionally n calling self.m(), and one of four constructor forms; probed with calls, bound values, wrong arity, unknown members, fields shadowing methods, type and derives on instances of the two most derived classes. G2: static methods and Self through class, instance and subclass instance. G3: classes in local scopes, captured variables, rebound superclass names. G4: every non-class value as superclass; deriving built-in error classes. G5: construction, arity, invoke == get-then-call. G6: the receiver of super in instance, static and constructor methods under 5 nestings of the expression and 5 places the class can be declared in, through class, subclass and instances. G7: `derives`, the member every class has from Object, defined anew at each level of a hierarchy of depth 1-3 and found (call, value, super, self call) from that level and every level below. G8: sixteen kinds of value (named function, lambda, closure, bound methods, built-in functions, bound built-in methods, constructor and static method as values, class, instance, number, nil) stored in an instance field named like a method, in a fresh field and in a module attribute, and called with 0-2 arguments by method-call syntax, after taking the member, and through a variable. non-trivial = at least four observations.",
         json!({"hierarchy_depth": 3, "per_class_choices": 40}),
     );
     report.assumptions = vec!["static methods and constructors are looked up on the class they were defined in and on instances, not through subclasses' class objects (Appendix A)".into()];
